@@ -68,3 +68,5 @@ void lemma_rely(void) {
     if (a.k < (1ul << 32) - 1 && mon_step(&t, a.ctr, n) == 0) __CPROVER_assert(rely(a, t), "lemma: G within R");
     CANARY;
 }
+int nondet_int(void);
+int vx_omp_nondet(void) { return nondet_int(); }
